@@ -1,11 +1,54 @@
 from specs import R
 
+# the 31 framing rules of the rules mode: each must have been observed on every role
+_RULES = ["wrong-masking", "opcode-3", "opcode-4", "opcode-5", "opcode-6", "opcode-7", "opcode-B", "opcode-C", "opcode-D", "opcode-E", "opcode-F",
+          "rsv1", "rsv2", "rsv3", "length-16bit-for-short", "length-64bit-for-short", "length-64bit-for-16bit", "ping-126-bytes", "pong-126-bytes", "close-126-bytes",
+          "continuation-first", "continuation-after-complete-message", "binary-inside-fragmented-message", "text-inside-fragmented-message",
+          "frame-above-recvmaxframe", "frame-above-recvmaxframe-64bit", "message-above-recvmaxsz-two-frames", "message-above-recvmaxsz-many-small-fragments",
+          "frame-length-2^32", "frame-length-2^63", "continuation-length-wraps-message-size"]
+_ROLES = ["stream-listener", "stream-dialer", "sp-listener", "sp-dialer"]
+
+
+def _second_audit_floors(scale):
+    f = {
+        # dimensions the level text promises (a generator drifting away from them must not stay green)
+        "http_server_exhaustive_cut": 250 * scale, "http_client_exhaustive_cut": 300 * scale,
+        "chunk_exhaustive_2way": 20000 * scale, "chunk_exhaustive_3way": 5000 * scale,
+        "ws_dribble_streams": 100 * scale, "ws_paced": 300 * scale, "ws_frames_behind_handshake": 25 * scale,
+        "ws_rule_enforced": 1200 * scale, "ws_rule_close_frame_seen": 1000 * scale,
+        "http_server_malformed_status": 250 * scale, "http_client_malformed_rejected": 400 * scale,
+        "@class:http-client/valid/chunked*": 1, "@class:http-client/valid/head*": 1, "@class:http-client/valid/clen0*": 1, "@class:http-client/valid/nobody*": 1,
+        "@class:http-server/valid/HEAD*": 1, "@class:http-server/valid/body-discarded*": 1,
+        # chunk line terminators (CR not followed by LF in the size line / at the end of the body; bare LF)
+        "chunk_crlf_rule_cases": 1500 * scale, "@class:chunk/*cr-*lf/ref=reject/bad-crlf/*": 3, "@class:chunk/size-lf-only/ref=reject/*": 1,
+        # request bodies in chunked transfer coding
+        "http_server_te_requests": 30 * scale, "@class:http-server/malformed/te-*": 3,
+        # body read into 2-4 separate buffers / with nng_http_read
+        "http_client_scatter_reads": 1500 * scale, "http_client_raw_reads": 5000 * scale, "http_client_raw_read_partial": 500 * scale,
+        "ws_scatter_recv_cases": 12 * scale, "@class:ws-valid-scatter/*": 4,
+        # upgrade spellings (outcome observed, accepted or refused), near misses that must be refused
+        "ws_hs_variant_cases": 60 * scale, "ws_hs_nearmiss_cases": 40 * scale, "@class:ws-hs-valid/*": 24, "@class:ws-hs/*near-miss*": 16,
+        # several sends outstanding, PINGs meanwhile, cancellation, CLOSE from the peer
+        "ws_tx_concurrent_sends": 400 * scale, "ws_tx_concurrent_fragmented": 120 * scale, "ws_tx_ping_during_fragments": 40 * scale,
+        "ws_tx_cancel_cases": 80 * scale, "ws_tx_cancel_midway": 10 * scale, "ws_tx_peer_close_cases": 40 * scale, "@class:ws-tx-concurrent/*": 20,
+    }
+    for role in _ROLES:
+        f["@class:ws-valid/%s*" % role] = 4
+        f["@class:ws-tx/%s/*/fragmented" % role] = 1
+    for rule in _RULES:
+        f["@class:ws-rule/%s/*" % rule] = 4
+    return f
+
+
 SPEC = dict(
     level="exploration",
     level_text="Runtime differential/reference monitors around the real codecs, under ASan+UBSan and the accounting allocator. "
                "(1) White-box: nni_http_chunks_parse is fed each seeded chunked stream whole and in every 2-way split (all 3-way splits for streams <= 40 bytes, sampled beyond), 1-byte dribble and random chunking, re-offering unconsumed bytes exactly as http_rd_buf does; error code, bytes consumed and the chunk list (sizes + data CRC) must be identical, must equal a strict RFC 7230 reference decoder for valid streams, and size-rule mutants (empty, non-hex, overflowing, above the limit, data not followed by CRLF) must be rejected. "
                "(2) A raw TCP peer with its own RFC 6455 codec, SHA-1 and base64 performs the HTTP upgrade against nng in four roles (nng_stream ws:// listener and dialer in stream and message mode, SP pair0 listening/dialing on ws://). Valid frame streams (fragmentation, PING/PONG between fragments, TEXT/BINARY, limits set to exactly fit) are replayed on one connection under every single cut of nng's reads for streams <= 300 bytes, cuts on every frame-header boundary, dribble, random chunks, paced peer writes and - for dialers - frames in the same write as the 101 response; what the application receives (bytes and message boundaries) must equal the strict reference decoder's output every time. One rule violation per connection (31 rules incl. 2^32 / 2^63 / wrapping 64-bit lengths, x 4 roles x modes) followed by a canary message: only a prefix of what precedes the offending frame may be delivered and the peer must see CLOSE and/or EOF within 10 s. Everything nng emits - upgrade request/response incl. Sec-WebSocket-Accept, data frames for NNG_OPT_WS_SENDMAXFRAME in {1,125,126,1000,65535,65536,unlimited}, PONG payloads, CLOSE codes - goes through the strict parser. "
-               "(2b) Upgrade validation: one defect per connection in the raw peer's half of the upgrade (28 defects: wrong/missing/truncated Sec-WebSocket-Accept, non-101 status, missing or wrong Upgrade/Connection/subprotocol; missing/short/long key, version != 13, POST, HTTP/1.0 ...): a listener must not answer 101 nor hand out a stream/pipe, a dialer must fail the dial or drop the connection without delivering the frame that follows. SP roles run pair0 and pair1 (hop header as separate iov, fragmented across SENDMAXFRAME); nng's own writes are shortened (dribble/random/cut) while it emits. (3) HTTP: raw client <-> nng_http_server with an echo handler and nng_http_transact <-> raw server (Content-Length, chunked with extensions/trailers, HEAD); each message is decoded under every single read cut (<= 300 bytes), header-boundary cuts, dribble, random and paced writes and must equal both the unsplit decode and the generator's model; malformed request lines/versions/escapes/headers/huge lines must give 4xx-5xx or a closed connection and never a handler call; malformed status lines/headers/chunk sizes must fail the transaction; requests and responses nng emits are parsed strictly (start line, header syntax, Content-Length == body).",
+               "(2b) Upgrade validation: one defect per connection in the raw peer's half of the upgrade (28 defects: wrong/missing/truncated Sec-WebSocket-Accept, non-101 status, missing or wrong Upgrade/Connection/subprotocol; missing/short/long key, version != 13, POST, HTTP/1.0 ...): a listener must not answer 101 nor hand out a stream/pipe, a dialer must fail the dial or drop the connection without delivering the frame that follows. SP roles run pair0 and pair1 (hop header as separate iov, fragmented across SENDMAXFRAME); nng's own writes are shortened (dribble/random/cut) while it emits. (3) HTTP: raw client <-> nng_http_server with an echo handler and nng_http_transact <-> raw server (Content-Length, chunked with extensions/trailers, HEAD); each message is decoded under every single read cut (<= 300 bytes), header-boundary cuts, dribble, random and paced writes and must equal both the unsplit decode and the generator's model; malformed request lines/versions/escapes/headers/huge lines must give 4xx-5xx or a closed connection and never a handler call; malformed status lines/headers/chunk sizes must fail the transaction; requests and responses nng emits are parsed strictly (start line, header syntax, Content-Length == body). "
+               "(4, second audit) Chunk line terminators: a CR that is not followed by LF in a size line or at the end of the body, and a bare LF after the size, must be rejected. Requests with Transfer-Encoding (chunk data = a complete second request) must get an error status or a closed connection and no handler call. The manual client reads bodies with nng_http_read_all into one buffer, into 2-4 separately allocated buffers, and with nng_http_read until done; ws stream mode receives into 2-4 separately allocated buffers in half of the cases: same decode required. "
+               "hsv mode: 8 valid spellings of the raw peer's half of the upgrade per direction (lower-case field names, Connection lists with and without a space after the comma, Upgrade: WebSocket, unknown extra fields and an offered extension, optional whitespace, several offered subprotocols, another reason phrase) are offered: acceptance or refusal is recorded per variant and role, not judged (the property does not demand that every valid spelling is understood); when nng accepts one, the frame behind it must be delivered intact and nng's own 101 reply / upgrade request must pass the strict parser (Sec-WebSocket-Accept, exactly the supported subprotocol); 6 near misses of the compared tokens (noupgrade, upgrades, websocket2, xwebsocket, subprotocol + 1 / - 1 character) must be refused. "
+               "conc mode (nng_stream ws:// in message mode, both roles, NNG_OPT_WS_SENDMAXFRAME in {1,7,125,126,1000,65536,unlimited}): 2-3 nng_stream_send operations outstanding at once, each longer than a frame, while the raw peer sends PINGs; the strict decoder must accept the emitted stream (no message starting inside another one), every message must arrive once and intact, every PING answered; one send is cancelled while its message is on the wire and another message sent behind it (it must not start inside the unfinished one: either the connection is failed or the cancelled message completes); the peer sends CLOSE while sends are in progress (no data frame behind nng's CLOSE).",
     level_note="Sampled, not exhaustive, beyond the stated small-stream enumerations. Trusts the harness's reference decoders (about 250 lines, self-tested against RFC examples), the read interposer (it only shortens reads a kernel could legally shorten) and loopback TCP. nng being stricter than the RFC (tabs in header values, bare LF in chunk lines) or lenient in things the property does not name (fragmented control frames, LF-only header lines, Content-Length syntax) is not judged. TLS (wss/https) is not built.",
     technique="runtime reference-decoder + segmentation differential + rule-mutation monitors with raw peers; ASan/UBSan; allocator balance",
     rule="chunk: a case is one seeded stream (valid / one size-rule mutant / random byte mutations) with all its splits; ws valid: a case is (role, mode, limits, fragsize, receive buffer size, seeded frame stream) with all its replays plus 1-4 application sends and a closing handshake; ws rules: a case is (rule, role, mode, valid prefix, segmentation); http: a case is one seeded request or response (or one malformed class) with all its segmentations; a class is (mode-specific situation actually observed), e.g. (rule, role, mode, how the connection ended)",
@@ -16,7 +59,9 @@ SPEC = dict(
                      R("c16_http", "asan", 3, 700, "client", 600),
                      R("c16_ws", "asan", 5, 50, "valid", 600),
                      R("c16_ws", "asan", 3, 450, "rules", 600),
-                     R("c16_ws", "asan", 1, 336, "hs", 600)],
+                     R("c16_ws", "asan", 1, 336, "hs", 600),
+                     R("c16_ws", "asan", 1, 112, "hsv", 600),
+                     R("c16_ws", "asan", 2, 140, "conc", 600)],
                floor={"chunk_splits": 3000000, "chunk_rule_rejected": 8000, "chunk_valid_equal": 8000,
                       "http_server_exchanges": 60000, "http_server_malformed": 400, "http_server_model_equal": 500,
                       "http_client_exchanges": 60000, "http_client_malformed": 400, "http_client_model_equal": 600,
@@ -31,20 +76,24 @@ SPEC = dict(
                       "@class:ws-tx-lenenc/*": 6,
                       "http_server_body_discarded": 1500, "http_client_manual_exchanges": 5000,
                       # heads of 8-20 KB made of short lines (more than nng's 8160-byte HTTP buffer), both roles
-                      "http_big_head_cases": 60, "http_server_big_head_cases": 25, "http_client_big_head_cases": 25},
+                      "http_big_head_cases": 60, "http_server_big_head_cases": 25, "http_client_big_head_cases": 25,
+                      **_second_audit_floors(1)},
                eval_key="cases"),
     thorough=dict(runs=[R("c16_http", "asan", 2, 250000, "chunk", 3000),
                         R("c16_http", "asan", 3, 7000, "server", 3000),
                         R("c16_http", "asan", 3, 7000, "client", 3000),
                         R("c16_ws", "asan", 5, 500, "valid", 3000),
                         R("c16_ws", "asan", 3, 4500, "rules", 3000),
-                        R("c16_ws", "asan", 1, 3360, "hs", 3000)],
+                        R("c16_ws", "asan", 1, 3360, "hs", 3000),
+                        R("c16_ws", "asan", 1, 1120, "hsv", 3000),
+                        R("c16_ws", "asan", 2, 1400, "conc", 3000)],
                   floor={"chunk_splits": 30000000, "http_server_exchanges": 600000, "http_client_exchanges": 600000,
                          "ws_replays": 80000, "ws_exhaustive_cut_streams": 600, "ws_rule_cases": 12000, "@classes": 300,
                          "ws_hs_defect_cases": 3000, "@class:ws-hs/*": 48, "ws_pair1_cases": 200, "ws_tx_sp_header_fragmented": 100,
                          "ws_tx_short_writes": 50000, "@class:ws-tx-short-write/*": 10, "http_server_short_writes": 500000, "http_client_short_writes": 500000,
                          "@class:ws-rule/frame-length-2^*": 10, "@class:ws-rule/continuation-length-wraps-message-size/*": 5, "@class:ws-tx-lenenc/*": 6,
                          "http_server_body_discarded": 15000, "http_client_manual_exchanges": 50000,
-                         "http_big_head_cases": 600, "http_server_big_head_cases": 250, "http_client_big_head_cases": 250},
+                         "http_big_head_cases": 600, "http_server_big_head_cases": 250, "http_client_big_head_cases": 250,
+                         **_second_audit_floors(8)},
                   eval_key="cases"),
 )
